@@ -560,6 +560,12 @@ func (db *MultiBucketBackend) deleteObjectLocked(bucketName, objectName string) 
 	}
 	fullPath := path.Join(bucketName, objectName)
 
+	// A directory is the parent of other keys, not an object; deleting such a
+	// key is deleting a key that does not exist.
+	if st, err := db.bucketFs.Stat(filepath.FromSlash(fullPath)); err == nil && st.IsDir() {
+		return nil
+	}
+
 	// S3 does not report an error when attemping to delete a key that does not exist, so
 	// we need to skip IsNotExist errors.
 	if err := db.bucketFs.Remove(filepath.FromSlash(fullPath)); err != nil && !os.IsNotExist(err) {
